@@ -248,6 +248,10 @@ def stream_cases(rnd, n, tmp):
             with cm:
                 c = _stream_case(via, via0, plan, recs, written, tmp, gen.fixed_streams_intent()[si] if si < nfixed else None)
             cases.append(c)
+    # more record types than a table of fixed size holds, one of them recurring
+    many = gen.many_types_stream()
+    for via0 in ("lowlevel", "path"):
+        cases.append(_stream_case(via0, via0 + ":many-types", [(r, True) for r in many], many, [obs_key(r) for r in many], tmp, None))
     # typed LISTS changed in place after the record was made (append / extend / item assignment store the plain value): what
     # is written is the list as the field type holds such values -- the same as a record constructed with the final list
     ML = RecordDescriptor("s/mutlists", [("path[]", "paths"), ("command[]", "cmds"), ("digest[]", "digs"), ("string[]", "names"), ("varint", "n")])
